@@ -178,6 +178,22 @@ func c02FailClosed(c *core.Ctx) {
 			if !ok {
 				return false
 			}
+			// struct form: the accumulator says "pending" only if the store was passed — and the walk stops there, so a
+			// return of the accumulator reached from the open edge did not pass it (the literal summary of the struct
+			// would show the stored `true` regardless of the path)
+			if u, isLoad := r.Results[0].(*ssa.UnOp); isLoad {
+				if al, isAlloc := u.X.(*ssa.Alloc); isAlloc {
+					dominated := false
+					core.Instrs(fn, func(x ssa.Instruction) {
+						if st, ok := pendingFieldStore(x); ok && st.Addr.(*ssa.FieldAddr).X == ssa.Value(al) && core.Dominates(st, r) {
+							dominated = true
+						}
+					})
+					if !dominated {
+						return true // an accumulator whose `pending` store was not passed since the open edge
+					}
+				}
+			}
 			v := pendingOf(r)
 			if v == nil {
 				return true
@@ -749,9 +765,11 @@ func init() {
 			{ID: "C02-gate", Floor: 2, Run: c02Gate, Text: "[DOM] send only on !ExistPendingCerts of a fresh status check"},
 			{ID: "C02-failclosed", Floor: 9, Run: c02FailClosed, Text: "[DOM]+[PROV]+bool env: errors and open certificates report pending=true; predicate definitions"},
 			{ID: "C02-submit", Floor: 2, Run: c02Submit, Text: "[WHO] single submission site behind the gate"},
+			{ID: "C02-pk", Floor: 3, Run: shared("C02-pk", c13PK), Text: "(shared with C13-pk) keys of the certificate tables: a second replacement at one height must be storable, otherwise the accepted certificate is not recorded and the height is submitted again"},
 			{ID: "C02-next", Floor: 6, Run: c02Next, Text: "guarded-return matching of (height, previous LER) against the last certificate's state"},
 			{ID: "C02-range", Floor: 9, Run: c02LastSent, Text: "guarded-return matching of (last block, retry); build-params provenance"},
 			{ID: "C02-retry", Floor: 6, Run: c02Retry, Text: "[DOM]+[PROV] retry keeps first block; VerifyBuildParams before returning params; resend literal"},
+			{ID: "C02-inputs", Floor: 3, Run: shared("C02-inputs", c13Inputs), Text: "(shared with C13-inputs) start-up recovery never reads a failed Agglayer query as no certificate in flight"},
 			{ID: "C02-recover", Floor: 8, Run: shared("C02-recover", c13Recover), Text: "(shared with C13-recover) a record rebuilt from an Agglayer header keeps the certificate's real block range"},
 			{ID: "C02-cut", Floor: 13, Run: shared("C02-cut", c17Filter), Text: "(shared with C17-filter) a cut keeps the events of its range and copies every other parameter, RetryCount included"},
 			{ID: "C02-ler", Floor: 9, Run: shared("C02-ler", c03NewLER), Text: "(shared with C03-newler) the new local exit root follows from the exits of the range"},
